@@ -281,7 +281,7 @@ def _shards_structural_sparse(tier):
 
 def _shards_names(tier):
     if tier == "quick":
-        return product_pins(l0=[0, 2, 4, 6, 8], l1=[1, 3, 6], starts=[1, 3])
+        return [p for p in product_pins(l0=[0, 2, 4, 6, 8], l1=[1, 3, 6], starts=[1, 3]) if p["l0"] != p["l1"]]
     return [p for p in product_pins(l0=list(range(9)), l1=list(range(9)), starts=[1, 2, 3, 5]) if p["l0"] != p["l1"]]
 
 
